@@ -5,6 +5,7 @@ import DS.Driver.StrLitD
 import DS.Driver.JsonD
 import DS.Driver.DetailD
 import DS.Driver.VMD
+import DS.Driver.RefD
 open DS.Driver
 
 def dispatch (line : String) : String :=
@@ -20,6 +21,7 @@ def dispatch (line : String) : String :=
     else if t == "detail" then detailLine toks
     else if t == "vmexec" || t == "skelexec" then vmLine toks
     else if t == "verify" then verifyLine toks
+    else if t == "refeval" then refLine toks
     else "bad-op"
 
 partial def loop (hin : IO.FS.Stream) (hout : IO.FS.Stream) : IO Unit := do
